@@ -31,7 +31,9 @@ RULE = ('one run = one simulated hand (all variants, automation subsets, modes) 
         'requests issued; non-trivial = requests at states where the hand is live; distinct = distinct (operation, '
         'argument class, phase, outcome) tuples x configuration class digests. Fault kinds: bad_request, warn_flip, and '
         'rng_flip - in half of the attacks the shuffle seam is re-keyed between the query, the verifier and the operation of '
-        'each request, so an answer that depends on how a replenished deck happens to be shuffled shows as a disagreement')
+        'each request, so an answer that depends on how a replenished deck happens to be shuffled shows as a disagreement. The '
+        'no-operation counts as an operation: can_no_operate/verify_no_operation/no_operate must agree and the operation must add '
+        'exactly one NoOperation record and change nothing else')
 ASSUMPTIONS = [
     'only documented argument types; player indices stay within 0..n-1',
     'unknown cards ("??") are requested only where nothing has to read them (burns, face-down hole cards): dealing them '
@@ -57,6 +59,7 @@ OPS = {
     'kill_hand': ('can_kill_hand', 'verify_hand_killing'),
     'push_chips': ('can_push_chips', 'verify_chips_pushing'),
     'pull_chips': ('can_pull_chips', 'verify_chips_pulling'),
+    'no_operate': ('can_no_operate', 'verify_no_operation'),
 }
 INDEXED = {'post_ante': 0, 'post_blind_or_straddle': 0, 'deal_hole': 1, 'select_runout_count': 1,
            'show_or_muck_hole_cards': 1, 'kill_hand': 0, 'pull_chips': 0}
@@ -76,7 +79,7 @@ def requests(world):
         out.append(('post_blind_or_straddle', a, tag))
         out.append(('kill_hand', a, tag))
         out.append(('pull_chips', a, tag))
-    for name in ('collect_bets', 'fold', 'check_or_call', 'post_bring_in', 'push_chips'):
+    for name in ('collect_bets', 'fold', 'check_or_call', 'post_bring_in', 'push_chips', 'no_operate'):
         out.append((name, (), 'default'))
     # amounts around every bound
     lo = st.min_completion_betting_or_raising_to_amount
@@ -319,6 +322,15 @@ class Adversary:
             except Exception as e:      # noqa: BLE001
                 raise Violation('C08.accept_fails', f'{can}{args} says yes but {name}{args} raised {type(e).__name__}: {e} '
                                 f'in {where_of(e)} [{label}, warnings={mode}, phase={phase}]', op=name, exc=type(e).__name__)
+            if name == 'no_operate':
+                # a note in the log and nothing else: one NoOperation record more, every other field as before
+                if len(fork.operations) != len(st.operations) + 1 or type(fork.operations[-1]).__name__ != 'NoOperation':
+                    raise Violation('C08.no_operation', f'no_operate() logged {[type(o).__name__ for o in fork.operations[len(st.operations):]]}',
+                                    op=name)
+                d = [x[0] for x in diff(before, snapshot(fork)) if x[0] != 'operations']
+                if d:
+                    raise Violation('C08.no_operation', f'no_operate() changed {d}', op=name)
+                ctx.count('no_operations_checked')
             if name in INDEXED and len(args) > INDEXED[name] and args[INDEXED[name]] is not None:
                 if getattr(op, 'player_index', None) != args[INDEXED[name]]:
                     raise Violation('C08.wrong_player', f'{name}{args} was applied to player {op.player_index}', op=name)
